@@ -833,7 +833,13 @@ class ExcelCompiler:
                 bounded_addr = str(self.eval(cell_range))
                 bounded_addr_cell = self.cell_map.get(bounded_addr)
                 if bounded_addr_cell.value is None:
-                    self._evaluate_range(bounded_addr)
+                    try:
+                        self._evaluate_range(bounded_addr)
+                    except Exception:
+                        if self.cycles:
+                            # the calculation of the reference is abandoned
+                            cell_range.wip = False
+                        raise
                 data = bounded_addr_cell.value
 
             elif cell_range.formula is None:
